@@ -302,11 +302,29 @@ def blank_scanner_stops_only_at_non_blank(prog, rep, R):
     except TooComplex as e:
         rep.fail(R, "blank-scanner:table", "count_leading_whitespace can no longer be enumerated path by path: %s" % e)
         return
-    bad, nexits = [], 0
+    bad, nexits, too_much = [], 0, []
     for where, tb in tables:
         for cons, res in tb.rows:
             if res.kind == "agg" and res.a and res.a[0] == "state":
-                continue                    # goes on scanning (next iteration / next loop)
+                # goes on scanning (next iteration / next loop): what was consumed on the way must be blank — when the path is decided
+                # by comparisons on a byte / character, every value that satisfies them lies in the blank set
+                if where != "entry":
+                    cm = {}
+                    for c in cons:
+                        m = re.match(r"^(Gt|Ge|Lt|Le|Eq|Ne)\((.+),(?:char:)?(\d+)\)$", str(c[1])) if c[0] == "cond" else None
+                        if m:
+                            cm.setdefault(m.group(2), []).append((str(c[1]), c[2]))
+                    for x, cs in cm.items():
+                        isbyte = "as_bytes(" in x or "bytes(" in x
+                        cand = list(range(0, 256)) + ([] if isbyte else [0x2000, 0x2FFF, 0x3000, 0x3001, 0xFEFF, 0x1F600])
+                        try:
+                            sat = [v for v in cand if all(bool(eval_desc(d.replace(x, "X"), {"X": v})) == (t != 0) for d, t in cs)]
+                        except Unknown:
+                            continue
+                        nonblank = [v for v in sat if not (v <= 0x20 or v == 0x3000)]
+                        if nonblank:
+                            too_much.append("%s: goes on scanning over %s" % (where, ["U+%04X" % v for v in nonblank[:3]]))
+                continue
             nexits += 1
             r = render(res)
             if "count_unicode_whitespace(" in r:
@@ -336,6 +354,9 @@ def blank_scanner_stops_only_at_non_blank(prog, rep, R):
     rep.check(not bad and nexits >= 1, R, "blank-scanner-stops-only-at-non-blank",
               "count_leading_whitespace can return at a position where the next character may still be a blank (neither the rest is handed to the complete scanner, nor is the input exhausted, "
               "nor do the comparisons on the path exclude {<= U+0020, U+3000}): %s" % bad[:2], where="%s:%d" % (b.file, b.line), instance={"exits": nexits, "loops": len(headers)})
+    rep.check(not too_much, R, "blank-scanner-consumes-only-blanks",
+              "count_leading_whitespace counts a character that is not blank as leading whitespace (whitespace is regenerated from counters, so the character is lost): %s" % too_much[:2],
+              where="%s:%d" % (b.file, b.line), instance={"loops": len(headers)})
 
 
 def blank_definition(prog, rep, R):
@@ -357,8 +378,8 @@ def blank_definition(prog, rep, R):
                 if cb is not None and cb.npath.startswith(LX) and cb not in out and cb.npath not in (LX + "count_unicode_whitespace", LX + "count_leading_whitespace"):
                     out.append(cb)
         return out
-    ints = sorted({v for x in family(cl) for k, v in consts_in(x) if k == "int" and v > 1})
-    rep.check(ints == [32, 127], R, "blank:ascii<=0x20", "count_leading_whitespace compares bytes against %s (expected 0x20 and 0x7F)" % ints, instance={"constants": ints})
+    # (which bytes the ASCII part accepts, and that it hands over to the complete scanner, is decided path-wise by
+    #  blank_scanner_stops_only_at_non_blank — the constants 0x20 / 0x7F are no longer matched literally)
     # the per-character predicate of the unicode counter, wherever it lives: run it on probe characters
     from table import Table, TooComplex, run_concrete, eval_desc, vdesc, Unknown
     probes = [0x00, 0x09, 0x0A, 0x0D, 0x20, 0x21, 0x41, 0x7F, 0x80, 0x85, 0xA0, 0x1680, 0x2003, 0x2028, 0x2FFF, 0x3000, 0x3001, 0x303F, 0xFEFF, 0x1F600]
@@ -385,7 +406,7 @@ def blank_definition(prog, rep, R):
     rep.check(good, R, "blank:unicode<=0x20|U+3000", "the per-character predicate of count_unicode_whitespace is not `c <= U+0020 || c == U+3000` on the probe characters: %s" % {hex(k) if isinstance(k, int) else k: v for k, v in verdicts.items() if isinstance(k, str) or v != (k <= 0x20 or k == 0x3000)},
               instance={"predicates": [short(x.npath) for x, _ in preds], "probes": len(probes)})
     rep.check(0x3000 in gchars, R, "AGREE:U+3000-excluded-from-identifiers", "U+3000 is blank but no longer excluded from identifier characters")
-    rep.check(any(c.target == LX + "count_unicode_whitespace" for x in family(cl) for c in x.calls()), R, "blank:ascii-counter-defers-on-high-bit", "count_leading_whitespace no longer defers to count_unicode_whitespace on a non-ASCII byte")
+
 
 
 def c13e(prog, rep):
